@@ -140,3 +140,31 @@ PROPS['C20'] = dict(
                 validate=[{'orbA': 2, 'spnA': 2, 'orbB': 2, 'spnB': 2, 'preset': 5, 'l1': 0, 'l2': 1}]),
            dict(name='term_factories', harness='h_lattice', defs=['SCEN=4'], witnesses=['done'], validate=[{'to1': 1, 'ts1': 1}])],
 )
+
+_symm_w = ['done']
+PROPS['C07'] = dict(
+    claim='The real chain Lattice -> IndexHamiltonian -> Symmetrizer (checkSymmetry, Operator::commutes) -> StatesClassification '
+          '-> FieldOperator::mapsTo / *Operator::prepare is executed symbolically for a term family with SYMBOLIC amplitudes '
+          '(level, hopping, spin-changing hopping, on-site U, pair creation; every zero pattern is a separate job): partition, '
+          'addressing, block-diagonality of H (for all amplitude values) and the single-target property with the resulting bimaps.',
+    bounds={Q: 'layouts: 1 spin-1/2 site, 2 spin-1/2 sites, spinless+spin-1/2, 2 spinless, 3-spin site (2-4 modes); default '
+               'analysis, ignored symmetries, user integrals of motion {N}, {N_0,N_rest}, {(N-1)^2}',
+            T: 'additionally layout (2 orbitals x 1 spin)+(1x2), user integrals {site charge}, {n_0 n_1}, {N, N^2} on all layouts'},
+    assumptions=['every amplitude is exactly 0 or 1e-3 <= |a| <= 1e3', 'double read as exact real',
+                 'quantum numbers are compared through boost::hash (real Boost code, concrete values): collisions among the '
+                 'values that occur are covered, others are outside the claim'],
+    outside=['more than 4 modes', 'HamiltonianPart::prepare (decided in the C03 units)'],
+    units=[dict(name='symm_l%d_default' % l, harness='h_symm', defs=['LAYOUT=%d' % l, 'ANALYSIS=0'], split={'zmask': R(32)},
+                witnesses=['done', 'symmetry_accepted'] + (['no_symmetry_accepted'] if l in (1, 2, 3) else []), max_loop=20000,
+                validate=[{'zmask': 24}]) for l in (0, 1, 2, 3, 4)] +
+          [dict(name='symm_l%d_ignored' % l, harness='h_symm', defs=['LAYOUT=%d' % l, 'ANALYSIS=1'], split={'zmask': R(32)},
+                witnesses=['done', 'no_symmetry_accepted'], max_loop=20000) for l in (1, 2)] +
+          [dict(name='symm_l1_iom%d' % i, harness='h_symm', defs=['LAYOUT=1', 'ANALYSIS=2', 'IOMSET=%d' % i], split={'zmask': R(32)},
+                witnesses=['done', 'symmetry_accepted'] if i != 3 else ['done', 'no_symmetry_accepted'], max_loop=20000,
+                validate=[{'zmask': 24}]) for i in (0, 1, 3)] +
+          [dict(name='symm_l5_default', harness='h_symm', defs=['LAYOUT=5', 'ANALYSIS=0'], split={'zmask': R(32)}, tiers=[T],
+                witnesses=['done'], max_loop=20000)] +
+          [dict(name='symm_l%d_iom%d' % (l, i), harness='h_symm', defs=['LAYOUT=%d' % l, 'ANALYSIS=2', 'IOMSET=%d' % i],
+                split={'zmask': R(32)}, tiers=[T], witnesses=['done'], max_loop=20000)
+           for l in (1, 2, 5) for i in (0, 1, 2, 3, 4, 5) if not (l == 1 and i in (0, 1, 3))],
+)
